@@ -27,7 +27,7 @@ Vecs2 == {<<1, 0>>, <<-1, 2>>}
 Affs22 == {A(<<<<0, 1>>, <<1, 0>>>>, <<1, -2>>, 2), A(<<<<2, 0>>, <<1, 1>>>>, <<0, 1>>, 2), A(<<<<1, 0>>, <<0, 1>>>>, <<1, -2>>, 2),
            A(<<<<1, 0>>, <<0, 0>>>>, <<0, 0>>, 2), A(<<<<0, 0>>, <<0, 0>>>>, <<1, 0>>, 2)}
 \* invertible integer matrices with integer inverse: <<M, Minv>>
-Unimod == {<<<<<<1, 1>>, <<0, 1>>>>, <<<<1, -1>>, <<0, 1>>>>>>, <<<<<<0, -1>>, <<1, 0>>>>, <<<<0, 1>>, <<-1, 0>>>>>>}
+Unimod == {<<<<<<1, 1>>, <<0, 1>>>>, <<<<1, -1>>, <<0, 1>>>>>>, <<<<<<0, -1>>, <<1, 0>>>>, <<<<0, 1>>, <<-1, 0>>>>>>, <<<<<<1, 0>>, <<1, 1>>>>, <<<<1, 0>>, <<-1, 1>>>>>>}
 Orth2 == {<<<<0, -1>>, <<1, 0>>>>, <<<<-1, 0>>, <<0, 1>>>>, <<<<0, 1>>, <<1, 0>>>>}
 Bd(lo, hi, li, hif) == [lo |-> lo, hi |-> hi, loinf |-> li, hiinf |-> hif]
 Bounds == {Bd(-1, 2, FALSE, FALSE), Bd(0, 0, FALSE, FALSE), Bd(0, 1, TRUE, FALSE), Bd(-2, 0, FALSE, TRUE), Bd(0, 0, TRUE, TRUE)}
@@ -162,7 +162,7 @@ DivPairs == {<<A(<<<<4, -6>>, <<2, 8>>>>, <<6, -4>>, 2), A(<<<<2, 3>>, <<-1, 4>>
              <<A(<<<<7, -5>>, <<3, 8>>>>, <<6, -7>>, 2), A(<<<<2, 3>>, <<-2, 3>>>>, <<4, -2>>, 2)>>}
 AffCtors ==
     {[ctor |-> n, dim |-> d, q |-> 1] : n \in {"identity", "zeros", "sum"}, d \in 1..4}
-    \cup {[ctor |-> "constant", dim |-> d, v |-> v, q |-> 2] : d \in 1..3, v \in {3, -1}}
+    \cup {[ctor |-> "constant", dim |-> d, v |-> v, q |-> 2] : d \in 1..3, v \in {3, -1, 0}}
     \cup {[ctor |-> n, dim |-> d, idx |-> i, q |-> 1] : n \in {"unit", "zero_idx"}, d \in 1..4, i \in 0..3}
     \cup {[ctor |-> "subtraction", dim |-> d, l |-> l, r |-> r, q |-> 1] : d \in 2..4, l \in 0..3, r \in 0..3}
     \cup {[ctor |-> "rotation", dim |-> 2, r |-> r, q |-> 1] : r \in Orth2}
@@ -206,6 +206,9 @@ LRowsS == {<<<<1, 0>>, 1>>, <<<<-1, 0>>, 0>>, <<<<0, 1>>, 1>>, <<<<0, -1>>, 1>>,
 LPolys == UNION {{PolyOfRows(<<r>>) : r \in LRows}, {PolyOfRows(<<r, s>>) : r \in LRows, s \in LRows},
                  IF NP >= 3 THEN {PolyOfRows(<<r, s, u>>) : r \in LRowsS, s \in LRowsS, u \in LRowsS} ELSE {},
                  IF NP >= 4 THEN {PolyOfRows(<<r, s, u, v>>) : r \in LRowsS, s \in LRowsS, u \in LRowsS, v \in {<<<<1, 0>>, 1>>, <<<<-1, -1>>, 1>>, <<<<0, 1>>, 1>>}} ELSE {}}
+\* anti-parallel rows of different scale (a slab between a x <= b and -k a x <= c, k # 1): fat, thin and empty ones
+LExtra == {PolyOfRows(<<<<<<1, 0>>, 1>>, <<<<-2, 0>>, -1>>>>), PolyOfRows(<<<<<<1, 1>>, 2>>, <<<<-2, -2>>, -3>>, <<<<1, 0>>, 1>>, <<<<-1, 0>>, 1>>>>),
+           PolyOfRows(<<<<<<0, -4>>, -4>>, <<<<0, 1>>, 3>>>>), PolyOfRows(<<<<<<2, 0>>, 1>>, <<<<-1, 0>>, -1>>>>), PolyOfRows(<<<<<<1, 0>>, 1>>, <<<<-2, 0>>, -2>>>>)}
 Objs == {<<0, 0>>, <<1, 0>>, <<0, 1>>, <<1, 1>>, <<-1, 1>>}
 PolyOfRowsD(rs, d) == A([i \in 1..Len(rs) |-> rs[i][1]], [i \in 1..Len(rs) |-> rs[i][2]], d)
 LRows1 == {<<<<a>>, c>> : a \in {-1, 0, 1}, c \in {-1, 0, 1}}
@@ -250,7 +253,7 @@ CleanStart == \E p \in CPolys \cup CExtra, o \in CleanOps, rs \in {<<0>>, <<1>>,
 AffStart == \E o \in AffOps :
     /\ stage = "init" /\ MODE = "aff" /\ ValidAffOp(o)
     /\ reg' = None /\ prev' = None /\ last' = o /\ hist' = o /\ stage' = "a1"
-LpStart == \E pc \in (LPolys \X Objs) \cup (LPolys1 \X Objs1) \cup (LPolys3 \X Objs3) :
+LpStart == \E pc \in ((LPolys \cup LExtra) \X Objs) \cup (LPolys1 \X Objs1) \cup (LPolys3 \X Objs3) :
     LET p == pc[1]  c == pc[2] IN
     /\ stage = "init" /\ MODE = "lp"
     /\ reg' = p /\ prev' = None /\ last' = c /\ hist' = [p |-> p, c |-> c] /\ stage' = "l1"
